@@ -238,6 +238,63 @@ def count_copies_download(addr, name, N_dup, family=socket.AF_INET, opts=()):
         s.close()
 
 
+def ack_every_copy_download(addr, name, opts, want, budget_s=25):
+    """RFC 7440 receiver that acknowledges every copy of the block closing each window (and of the final block).
+    Returns ({abs block: copies}, data, note)."""
+    s = N._sock(timeout=2.0)
+    tr = N.Transfer()
+    copies, payloads, data = {}, {}, bytearray()
+    note = ""
+    t_end = time.time() + budget_s
+    try:
+        s.sendto(N.enc_req(N.RRQ, name, options=opts), addr)
+        k, f, peer = N.recv(s, tr)
+        if k != "OACK":
+            return copies, b"", f"first reply {k}"
+        o = dict(f["options"])
+        b, w = int(o.get("blksize", 512)), int(o.get("windowsize", 1))
+        s.sendto(N.enc_ack(0), peer)
+        expected = 1
+        done = False
+        quiet = 0
+        while time.time() < t_end:
+            s.settimeout(0.6)
+            try:
+                buf, src = s.recvfrom(70000)
+            except socket.timeout:
+                quiet += 1
+                if done or quiet > 6:
+                    break
+                continue
+            quiet = 0
+            k2, f2 = N.dec(buf)
+            if k2 != "DATA":
+                note += f"unexpected {k2}; "
+                continue
+            blk = f2["blk"]
+            if blk in payloads:
+                copies[blk] += 1
+                if max(copies.values()) > want + 20:
+                    note += f"block {blk} seen {copies[blk]} times, giving up; "
+                    break
+            elif blk == expected:
+                payloads[blk] = f2["data"]
+                copies[blk] = 1
+                data += f2["data"]
+                expected += 1
+                if len(f2["data"]) < b:
+                    done = True
+            else:
+                note += f"out-of-order DATA {blk}; "
+                continue
+            last_in_window = (blk % w == 0) or len(payloads[blk]) < b
+            if last_in_window and blk == expected - 1:
+                s.sendto(N.enc_ack(blk), peer)   # one ACK per copy received
+        return copies, bytes(data), note
+    finally:
+        s.close()
+
+
 def count_copies_upload(addr, name, content, family=socket.AF_INET):
     s = N._sock(family, timeout=1.0)
     tr = N.Transfer()
@@ -295,6 +352,24 @@ def c16(v, tier):
             v.violation("C16/startup/valid-rejected", f"--duplicate-packets {n} did not start (status {status})", {"engine": "net", "n": n})
         if not should_start and (alive or status == 0):
             v.violation(f"C16/startup/accepted-{n}", f"--duplicate-packets {n} was accepted (alive={alive}, status={status})", {"engine": "net", "n": n})
+    # N = 254 with a window: sending one window takes N x windowsize ms, which can exceed the negotiated timeout;
+    # every block must still be emitted exactly 255 times to a client that acknowledges every copy
+    sbL = ctx.sandbox("c16big")
+    contentL = N.keyed_content("c16-254", 512 * 10 + 9)
+    write(os.path.join(sbL["srv"], "L.bin"), contentL)
+    with N.Server(bins["tftpd"], sbL["srv"], dup=254, logdir=sbL["logs"]) as srvL:
+        evals += 1
+        copies, data, note = ack_every_copy_download(srvL.addr, "L.bin", [("windowsize", 5), ("timeout", 1)], 255, budget_s=25)
+        finished = bool(copies) and "giving up" not in note and data == contentL
+        too_many = {k: c for k, c in copies.items() if c > 255}
+        wrong = too_many or ({k: c for k, c in copies.items() if c != 255} if finished else {})
+        replay = {"engine": "net", "config": "N=254,windowsize=5,timeout=1", "copies": copies, "note": note}
+        if not finished and not too_many:
+            v.note_inconclusive(f"N=254 download did not finish inside its wall-clock budget ({note or 'slow machine'}); copies so far {copies}")
+        elif wrong:
+            v.violation("C16/net/data-copies/N254", f"N=254 windowsize 5 timeout 1: copies per block {wrong} (expected 255 each) {note}", replay)
+        elif data != contentL:
+            v.violation("C16/net/content/N254", f"N=254 windowsize 5: download differs ({len(data)} of {len(contentL)} bytes) {note}", replay)
     for Nd in ((1, 2, 3) if thorough else (1, 2)):
         for single in (False, True):
             sb = ctx.sandbox("c16")
